@@ -62,7 +62,7 @@ def stage_a(ctx, configs, witnesses_front='v2'):
                           {'trace': r.errtrace})
         for a, (d, t) in r.coverage.items():
             cov_total[a] = cov_total.get(a, 0) + t
-    for a in ('Express', 'RecvData', 'ValFinish', 'Fire', 'Tick', 'Cancel', 'Shutdown', 'RecvNack', 'RecvJunk'):
+    for a in ('Express', 'RecvDataX', 'ValFinish', 'Fire', 'Tick', 'Cancel', 'Shutdown', 'RecvNackX', 'RecvJunk'):
         if cov_total.get(a, 0) == 0:
             raise tlc.MachineryError('vacuous: NdnPit action %s never taken in stage A' % a)
     ctx.extra.setdefault('action_coverage', {}).update(cov_total)
